@@ -88,7 +88,22 @@ func (e *Engine) registrations(fn *ssa.Function, which string) map[string]string
 			switch x := in.(type) {
 			case *ssa.MapUpdate:
 				if f, _ := loadedField(x.Map); f == nil || f.Name() != field {
-					return
+					// a table built as a map literal and then assigned to the field
+					mk, isMk := strip(x.Map).(*ssa.MakeMap)
+					if !isMk {
+						return
+					}
+					assigned := false
+					for _, r := range refsOf(mk) {
+						if st, isSt := r.(*ssa.Store); isSt && st.Val == ssa.Value(mk) {
+							if sf := fieldOf(st.Addr); sf != nil && sf.Name() == field {
+								assigned = true
+							}
+						}
+					}
+					if !assigned {
+						return
+					}
 				}
 				h := "?"
 				for _, hf := range e.closuresOf(x.Value, ctx, 0) {
@@ -108,6 +123,11 @@ func (e *Engine) registrations(fn *ssa.Function, which string) map[string]string
 					instrs(h, func(j ssa.Instruction) {
 						if mu, ok := j.(*ssa.MapUpdate); ok {
 							if f, _ := loadedField(mu.Map); f != nil && f.Name() == field {
+								writes = true
+							}
+						}
+						if st, ok := j.(*ssa.Store); ok {
+							if sf := fieldOf(st.Addr); sf != nil && sf.Name() == field {
 								writes = true
 							}
 						}
